@@ -440,6 +440,14 @@ mut('C08-eigenvalue-floor-dropped', 'C08', D + 'cacgmm.py', "            hermiti
     "            hermitize=hermitize,\n            covariance_norm=covariance_norm,\n        )\n        return CACGMM", expect='unused', props=['C08'])
 # ---- R-ARGNAME / R-STALE positive examples
 mut('C13-refchannel-target-noise-crossed', 'C13', 'pb_bss/extraction/beamformer.py', "            mat, target_psd_matrix, noise_psd_matrix, eps=eps)", "            mat, noise_psd_matrix, target_psd_matrix, eps=eps)", expect='R-ARGNAME', props=['C13', 'C11'])
+# ---- the precision Cholesky factor computed with numpy in the scikit-learn convention (upper factor) is equivalent; the lower factor paired with the
+#      column contraction is equivalent as well
+neu('N5-gaussian-numpy-upper-factor', ALLP, [(D + 'gaussian.py', "        pc = _compute_precision_cholesky(c, 'full')\n        self.precision_cholesky = np.reshape(pc, self.covariance.shape)",
+    "        pc = np.swapaxes(np.linalg.inv(np.linalg.cholesky(c)), -1, -2)\n        self.precision_cholesky = np.reshape(pc, self.covariance.shape)", False)])
+neu('N5-gaussian-lower-factor-column-contraction', ALLP, [
+    (D + 'gaussian.py', "        pc = _compute_precision_cholesky(c, 'full')\n        self.precision_cholesky = np.reshape(pc, self.covariance.shape)",
+     "        pc = np.linalg.inv(np.linalg.cholesky(c))\n        self.precision_cholesky = np.reshape(pc, self.covariance.shape)", False),
+    (D + 'gaussian.py', "            '...Dd,...nD->...nd',", "            '...dD,...nD->...nd',", False)])
 # ---- whole refactorings written by independent sub-agents (14-20 behaviour-preserving edits each, verified bit-identical on
 #      600-900 inputs per patch): every check must stay silent on each of them
 for r, what in (('R1', 'mixture_model_utils / cacgmm / cACG'), ('R2', 'cwmm / cbmm / Watson / Bingham / distribution.utils'), ('R3', 'gmm / gaussian / vMF / gcacgmm / vmfcacgmm'),
